@@ -51,7 +51,7 @@ def gen_geo(tier, seed):
 
 def back_check(rec, ell, xyz, one, site_prefix, co):
     a, invf = ELL_AF[ell]
-    st, r = rec.call(xyz2llh, xyz[0], xyz[1], xyz[2], ELLS[ell])
+    st, r = rec.call(xyz2llh, xyz[0], xyz[1], xyz[2], cfg.ell_obj(ell))
     if st != 'ok':
         rec.fail('xyz2llh raised on a point off the rotation axis', site=site_prefix + ':raise', observed=r, case=one, coords=co)
         return
@@ -86,13 +86,13 @@ def ev_geo(case, rec):
             except Exception:
                 rec.skip('input object of class %s could not be built (C08)' % kind)
                 continue
-        st, r = rec.call(llh2xyz, cfg.unwrap(la), cfg.unwrap(lo), h, ELLS[ell])
+        st, r = rec.call(llh2xyz, cfg.unwrap(la), cfg.unwrap(lo), h, cfg.ell_obj(ell))
         co = {'ell': ell, 'lat': lat, 'lon': lon, 'h': h}
         if st != 'ok':
             rec.fail('llh2xyz raised', site='convert:llh2xyz', observed=r, case=one, coords=co)
             continue
         if kind != 'float':
-            st2, r2 = rec.call(llh2xyz, la.dec(), lo.dec(), h, ELLS[ell])
+            st2, r2 = rec.call(llh2xyz, la.dec(), lo.dec(), h, cfg.ell_obj(ell))
             if tuple(r2) != tuple(r):
                 rec.fail('angle-class input gives a different result from its decimal-degree value',
                          site='convert:llh2xyz:intype', observed=list(r), expected=list(r2), case=one, coords=co)
